@@ -400,7 +400,7 @@ C09(job) ==
       framesOf(k) == AllFrames(progOf(job.seq[k]), "")
       allcalls == [k \in 1..Len(rs) |-> rs[k].calls]
       ndOf(k, c) == NodeByName(FrameProg(framesOf(k), c.frame), c.node)
-      keyOf(k, c) == <<ndOf(k, c).fid, ndOf(k, c).outputs, ndOf(k, c).targets, c.args>>
+      keyOf(k, c) == <<ndOf(k, c).fid, ndOf(k, c).outputs, ndOf(k, c).targets, <<ndOf(k, c).fallback>>, c.args>>
       cacheable(k, c) == c.kind # "graph" /\ ndOf(k, c).cache
       okcall(k, c) == ~Fails(ndOf(k, c), c.idx, [i \in 1..Len(c.args) |-> <<"", c.args[i][1], c.args[i][2]>>])
   IN [ transparent |-> \A k \in 1..Len(rs) :
